@@ -639,3 +639,48 @@ package locate
 //@   at call(LocateKey) assert cursor: arg_key == startKey && (len(regionIDs) == 0 ==> startKey == old(startKey))
 //@   at call(Contains) assert listed: len(regionIDs) >= 1 && regionIDs[len(regionIDs)-1] == curRegion.Region.id && locHolds(curRegion, startKey, false) && arg0 == endKey
 //@   ensures some: err == nil ==> len(regionIDs) >= 1
+
+// A failed send marks a store unreachable only after its liveness check said so, and it is the store the request was
+// really sent to (the proxy when one was used).
+//@ func (*replicaSelector) onSendFailure
+//@   prop C10
+//@   may-panic
+//@   opaque-callee checkLiveness GetLeaderPeerID Inc
+//@   at call(invalidateReplicaStore) assert unreachable: liveness != reachable && arg0 == ite(s.proxy != nil, s.proxy, s.target) && arg1 == err
+//@   at call(checkLiveness) assert probed: arg1 == ite(s.proxy != nil, s.proxy, s.target)
+// canFastRetry refuses a fast retry only for a leader read whose leader is still a candidate and has not answered server-busy.
+//@ func (*replicaSelector) canFastRetry
+//@   prop C10
+//@   may-panic
+//@   inline-callee hasFlag
+//@   opaque-callee getStore isLeaderCandidate
+//@   ensures slow: !result ==> s.replicaReadType == kv.ReplicaReadLeader
+
+// ---- C09: expiry and invalidation of a cached region -------------------------------------------------------------------------
+// A region whose time-to-live lies before the given time is expired; a check that does not find it expired never moves the
+// time-to-live backwards; invalidation records the first reason only and expires the entry at once.
+//@ func (*Region) isCacheTTLExpired
+//@   prop C09
+//@   ensures result == (ts > r.ttl)
+//@ func (*Region) invalidate
+//@   prop C09
+//@   may-panic
+//@   opaque-callee Inc
+//@   ensures first: old(r.invalidReason) == Ok ==> r.invalidReason == reason && r.ttl == expiredTTL
+//@   ensures kept: old(r.invalidReason) != Ok ==> r.invalidReason == old(r.invalidReason) && r.ttl == old(r.ttl)
+//@ func (*Region) checkRegionCacheTTL
+//@   prop C09
+//@   may-panic
+//@   inline-callee checkSyncFlags
+//@   opaque-callee nextTTL
+//@   loop 1 invariant l1: true
+//@   at return assert expired: !result ==> ts > r.ttl
+// Updating the leader: an unknown region is left alone, a NotLeader without hint moves on to the next peer, a hint naming a
+// peer the region does not have invalidates the entry (reason: store not found).
+//@ func (c *RegionCache) UpdateLeader
+//@   prop C09
+//@   may-panic
+//@   opaque-callee GetCachedRegionWithRLock getStore switchNextTiKVPeer GetID GetStoreId
+//@   at call(switchNextTiKVPeer) assert nohint: leader == nil && arg1 == currentPeerIdx
+//@   at call(switchWorkLeaderToPeer) assert hint: leader != nil && arg0 == leader
+//@   at call(invalidate) assert unknown: arg0 == StoreNotFound
